@@ -22,8 +22,11 @@ SPEC = os.path.join(VERIF, "spec")
 HARNESS = os.path.join(VERIF, "harness")
 CACHE = os.path.join(VERIF, ".cache")
 WORK = os.path.join(VERIF, ".work")
-REPLAYS = os.path.join(VERIF, "replays")
-EVIDENCE = os.path.join(VERIF, "evidence")
+# runs against a scratch tree (VERIF_REPO=..., seeded-change experiments) must not
+# overwrite the evidence of /repo: VERIF_OUT redirects evidence and replays
+_OUT = os.environ.get("VERIF_OUT")
+REPLAYS = os.path.join(_OUT or VERIF, "replays")
+EVIDENCE = os.path.join(_OUT or VERIF, "evidence")
 TLA_CP = "/opt/veriftools/tla/tla2tools.jar:/opt/veriftools/tla/CommunityModules-deps.jar"
 NCPU = os.cpu_count() or 8
 
@@ -178,6 +181,13 @@ VARIANTS = {
     "fp_O0": ("g++", ["-std=c++17", "-O0", "-w", "-DVH_FP"]),
     "fp_O3": ("g++", ["-std=c++17", "-O3", "-w", "-DVH_FP"]),
     "fp_clang": ("clang++-14", ["-std=c++17", "-O2", "-w", "-DVH_FP"]),
+    "exactd": ("g++", ["-std=c++17", "-O2", "-w", "-DVH_SCALAR=double", "-pthread"]),
+    "exact_thr": ("g++", ["-std=c++17", "-O1", "-w", "-pthread"]),
+    "tsan": ("clang++-14", ["-std=c++17", "-O1", "-g", "-w", "-fsanitize=thread", "-pthread"]),
+    "tsand": ("clang++-14", ["-std=c++17", "-O1", "-g", "-w", "-fsanitize=thread", "-pthread", "-DVH_SCALAR=double"]),
+    "ex": ("g++", ["-std=c++17", "-O2", "-w", "-DBSPLINE_INTERPOLATION_USE_EIGEN", "-DBSPLINE_ADD_TEST_CHECKS"]),
+    "ex_san": ("clang++-14", ["-std=c++17", "-O1", "-g", "-w", "-DBSPLINE_INTERPOLATION_USE_EIGEN", "-DBSPLINE_ADD_TEST_CHECKS", "-fsanitize=address,undefined",
+                              "-fno-sanitize-recover=undefined", "-fno-omit-frame-pointer", "-D_GLIBCXX_DEBUG"]),
     "san": ("clang++-14", ["-std=c++17", "-O1", "-g", "-w", "-fsanitize=address,undefined",
                            "-fno-sanitize-recover=undefined", "-fno-omit-frame-pointer", "-D_GLIBCXX_ASSERTIONS"]),
 }
@@ -214,7 +224,7 @@ def build(variant, sources, name="vh", extra_flags=(), gen_sources=(), libs=()):
             for _, out in bad:
                 f.write(out + "\n")
         raise BuildError(errp, bad[0][1][-3000:])
-    cmd = [comp] + [f for f in flags if f.startswith("-fsanitize") or f == "-g"] + [o for o, _, _ in results] + ["-o", binp + ".tmp"] + list(libs)
+    cmd = [comp] + [f for f in flags if f.startswith("-fsanitize") or f in ("-g", "-pthread")] + [o for o, _, _ in results] + ["-o", binp + ".tmp"] + list(libs)
     p = subprocess.run(cmd, stdout=subprocess.PIPE, stderr=subprocess.STDOUT, text=True)
     if p.returncode != 0:
         raise MachineryFailure("link failed: " + p.stdout[-2000:])
@@ -374,3 +384,30 @@ def write_replay(prop, payload):
     p = os.path.join(d, sha(json.dumps(payload, sort_keys=True)) + ".json")
     json.dump(payload, open(p, "w"), indent=1)
     return p
+
+
+# --------------------------------------------------------------------------- threaded Exec (C18)
+def exec_threaded(binp, case_lines, workdir, nthreads, timeout=900, env=None):
+    """vh --threads N: returns (seq_events, [per-thread events], quiescent, rc, stderr)."""
+    ensure(workdir)
+    inp = os.path.join(workdir, "cases.ndjson")
+    pre = os.path.join(workdir, "out")
+    with open(inp, "w") as f:
+        f.write("\n".join(case_lines) + "\n")
+    for p in glob.glob(pre + ".*"):
+        os.remove(p)
+    e = dict(os.environ)
+    e.update(env or {})
+    e.setdefault("TSAN_OPTIONS", "exitcode=66:halt_on_error=0:second_deadlock_stack=1")
+    try:
+        p = subprocess.run([binp, "--threads", str(nthreads), inp, pre], stdout=subprocess.PIPE, stderr=subprocess.PIPE, timeout=timeout, env=e)
+        rc, err = p.returncode, p.stderr.decode(errors="replace")
+    except subprocess.TimeoutExpired:
+        rc, err = -9, "timeout"
+    rd = lambda path: open(path).read().splitlines() if os.path.exists(path) else []
+    seq = rd(pre + ".seq")
+    ths = [rd(pre + ".t%d" % t) for t in range(nthreads)]
+    q = rd(pre + ".quiescent")
+    for p in glob.glob(pre + ".*") + [inp]:
+        os.remove(p)
+    return seq, ths, (json.loads(q[0]) if q else None), rc, err
